@@ -85,19 +85,13 @@ Definition dir_and_name (fp : string) : string * string :=
   | Some (d, n) => if d =? "" then ("/", n) else (d, n)  (* dir == "/"  |  dir[:len-1] *)
   end.
 
-(* filepath.Base *)
-Fixpoint strip_trailing_slashes_rev (l : list ascii) : list ascii :=
-  match l with
-  | c :: r => if Ascii.eqb c slash then strip_trailing_slashes_rev r else l
-  | [] => []
-  end.
-Definition strip_trailing_slashes (s : string) : string :=
-  string_of_list_ascii (rev (strip_trailing_slashes_rev (rev (list_ascii_of_string s)))).
+(* filepath.Base: strip trailing slashes, take what follows the last slash; "" -> ".",
+   only slashes -> "/".  That is the last non-empty segment. *)
+Definition last_nonempty (l : list string) : option string :=
+  fold_left (fun acc s => if s =? "" then acc else Some s) l None.
 Definition path_base (p : string) : string :=
   if p =? "" then "."
-  else let q := strip_trailing_slashes p in
-       if q =? "" then "/"
-       else match rcut_slash q with Some (_, n) => n | None => q end.
+  else match last_nonempty (split_slash p) with Some s => s | None => "/" end.
 
 (* filepath.Dir *)
 Definition path_dir (p : string) : string :=
@@ -179,6 +173,19 @@ Definition effective (c : fcall) : option string :=
   | GUpdate d n => Some (d ++ "/" ++ n)
   | GDelete d n _ => Some (join_path d n)
   end.
+
+(* Filer.CreateEntry -> ensureParentDirecotryEntry: the parent directories it looks up
+   (and creates when missing) for the literal path p are "/" + util.Join(parts[:level])
+   for level = 1 .. len(parts)-1, parts = strings.Split(p, "/"); util.Join ignores
+   empty elements and cleans the rest as a RELATIVE path *)
+Definition join_rel (parts : list string) : string :=
+  match filter (fun s => negb (s =? "")) parts with
+  | [] => ""
+  | l => clean (join_slash l)
+  end.
+Definition create_parents (p : string) : list string :=
+  let parts := split_slash p in
+  map (fun k => "/" ++ join_rel (firstn k parts)) (seq 1 (List.length parts - 1)).
 
 (* http.Client: a 301 is followed; PUT / DELETE are re-issued as GET *)
 Definition redirect_meth (m : meth) : meth :=
@@ -281,6 +288,35 @@ Definition is_dir_at (fx : fixture) (p : string) : bool :=
 Definition exists_at (fx : fixture) (p : string) : bool :=
   match fx_find fx p with Some _ => true | None => false end.
 
+(* the Name of the entry a lookup of (dir, name) returns: the last segment of the
+   cleaned path (the root entry has the empty name) *)
+Definition entry_name (p : string) : string :=
+  match rcut_slash p with Some (_, n) => n | None => p end.
+
+(* setTags / touch: UpdateEntry{Directory: dir, Entry: the entry the lookup returned} *)
+Definition update_after_lookup (fx : fixture) (d n : string) : list fcall :=
+  if exists_at fx (join_path d n) then [GUpdate d (entry_name (join_path d n))] else [].
+
+(* Filer.CreateEntry(dir + "/" + name) as a file succeeds unless an ancestor (at the
+   cleaned prefixes) is a file or the path itself is an existing directory *)
+(* ensureParentDirecotryEntry walks the parents from the deepest one upwards; the first
+   one that exists decides: a file is an error, a directory ends the walk *)
+Fixpoint parents_ok (fx : fixture) (deepest_first : list string) : bool :=
+  match deepest_first with
+  | [] => true
+  | p :: r =>
+      if p =? "/" then true
+      else match fx_find fx p with
+           | Some true => true
+           | Some false => false
+           | None => parents_ok fx r
+           end
+  end.
+Definition create_file_ok (fx : fixture) (d n : string) : bool :=
+  let p := d ++ "/" ++ n in
+  parents_ok fx (rev (create_parents p)) &&
+  match fx_find fx p with Some true => false | _ => true end.
+
 Definition calls (fx : fixture) (q : req) : list ccall :=
   let b := q_bucket q in
   let object := norm_object (q_object q) in
@@ -301,7 +337,7 @@ Definition calls (fx : fixture) (q : req) : list ccall :=
       let '(sb, so) := src_bucket_object cp in
       if ((sb =? b) && (so =? object) || (cp =? "")) && replace then
         let '(d, n) := dir_and_name opath in
-        within b (GLookup d n :: (if exists_at fx (join_path d n) then [GUpdate d n] else []))
+        within b (GLookup d n :: update_after_lookup fx d n)
       else if (sb =? "") then []
       else if (sb =? b) && (so =? object) then []
       else
@@ -349,7 +385,8 @@ Definition calls (fx : fixture) (q : req) : list ccall :=
                    GLookup ld ln ::
                    (if exists_at fx (join_path ld ln) then
                       let '(d, n) := complete_dir_name b key in
-                      [GCreate d n false; GDelete (uploads_dir b) (q_upload q) true]
+                      GCreate d n false ::
+                      (if create_file_ok fx d n then [GDelete (uploads_dir b) (q_upload q) true] else [])
                     else [])
                  else []))
   | RAbort =>
@@ -360,7 +397,7 @@ Definition calls (fx : fixture) (q : req) : list ccall :=
   | RGetTag => let '(d, n) := dir_and_name opath in within b [GLookup d n]
   | RPutTag =>
       let '(d, n) := dir_and_name opath in
-      within b (GLookup d n :: (if exists_at fx (join_path d n) then [GUpdate d n] else []))
+      within b (GLookup d n :: update_after_lookup fx d n)
   | RDelTag => let '(d, n) := dir_and_name opath in within b [GLookup d n]
   end.
 
@@ -400,28 +437,40 @@ Definition uploads_hidden (fx : fixture) (q : req) : bool :=
 
 (* ---------- decidable trigger sets ---------- *)
 
-Definition has_dotdot (s : string) : bool := existsb (String.eqb "..") (split_slash s).
+Definition has_seg (x : string) (s : string) : bool := existsb (String.eqb x) (split_slash s).
+Definition has_dotdot (s : string) : bool := has_seg ".." s.
 
 Definition dec1 (s : string) : string := match pct_decode s with Some t => t | None => s end.
 
-(* finding 0: a ".." segment in the key, the upload id, the copy source or a batch key
-   (after the decodings the route applies), or a copy source bucket "." / ".." *)
-Definition bad_bucket (b : string) : bool := (b =? "") || (b =? ".") || (b =? "..") || negb (no_slash b).
-Definition req_dotdot (q : req) : bool :=
-  has_dotdot (q_object q) || has_dotdot (dec1 (q_object q)) ||
-  has_dotdot (q_upload q) || has_dotdot (dec1 (q_upload q)) ||
-  has_dotdot (q_src q) || has_dotdot (dec1 (q_src q)) || has_dotdot (dec1 (dec1 (q_src q))) ||
-  bad_bucket (fst (src_bucket_object (dec1 (q_src q)))) && negb (q_src q =? "") ||
-  existsb has_dotdot (q_keys q).
+Fixpoint no_pct (s : string) : bool :=
+  match s with EmptyString => true | String c r => negb (Ascii.eqb c "%"%char) && no_pct r end.
+Definition bad_bucket (b : string) : bool :=
+  (b =? "") || (b =? ".") || (b =? "..") || negb (no_slash b) || negb (no_pct b).
 
-(* finding 1: an object route whose key (cleaned) starts with ".uploads" *)
-Definition key_in_uploads (k : string) : bool :=
-  match norm_segs true (split_slash ("/" ++ k)) with
-  | s :: _ => s =? ".uploads"
-  | [] => false
-  end.
-Definition req_uploads_key (q : req) : bool :=
-  object_route (q_route q) &&
-  (key_in_uploads (q_object q) || key_in_uploads (dec1 (q_object q)) || existsb key_in_uploads (q_keys q) ||
-   key_in_uploads (snd (src_bucket_object (dec1 (q_src q)))) ||
-   key_in_uploads (snd (src_bucket_object (dec1 (dec1 (q_src q)))))).
+(* the copy source as the copy handlers address it *)
+Definition src_bucket (q : req) : string := fst (src_bucket_object (dec1 (q_src q))).
+Definition src_path (q : req) : string :=
+  let '(sb, so) := src_bucket_object (dec1 (q_src q)) in bucket_dir sb ++ so.
+
+(* the path strings an OBJECT route builds from the key, the copy source and the batch
+   keys (raw, and after the extra URL decoding of the copy routes) *)
+Definition obj_paths (q : req) : list string :=
+  (q_object q ::
+   dec1 (bucket_dir (q_bucket q) ++ norm_object (q_object q)) ::
+   (if q_src q =? "" then [] else [dec1 (src_path q)]) ++
+   q_keys q)%list.
+
+(* the path strings a multipart route builds from the upload id (and the part name) *)
+Definition mp_paths (q : req) : list string :=
+  [q_upload q; dec1 (uploads_dir (q_bucket q) ++ "/" ++ q_upload q ++ "/" ++ q_part q)].
+
+(* finding 0: a ".." segment in one of these strings, or a copy source whose bucket is
+   not a plain name *)
+Definition req_dotdot (q : req) : bool :=
+  existsb has_dotdot (obj_paths q ++ mp_paths q)%list ||
+  (negb (q_src q =? "") && bad_bucket (src_bucket q)).
+
+(* finding 1: an object route with a ".uploads" segment in the key, the copy source or
+   a batch key *)
+Definition req_uploads_seg (q : req) : bool :=
+  object_route (q_route q) && existsb (has_seg ".uploads") (obj_paths q).
